@@ -688,6 +688,19 @@ func (f *Fleet) Drain(d time.Duration) {
 			return
 		}
 		actor = Actor{Kind: "none", At: time.Now()}
+		// An instance whose Sync returned (an upload that had exhausted its
+		// retry budget just before the faults stopped) is restarted, as a
+		// service manager would.
+		f.reapCancelled()
+		if st := f.stopped(); len(st) > 0 {
+			for _, n := range st {
+				if err := n.Start(); err != nil {
+					panic(err)
+				}
+				f.Stats.Restarts++
+			}
+			continue
+		}
 		if len(parked) == 0 {
 			f.Sim.Idle(end - f.Sim.Now())
 			continue
@@ -792,6 +805,12 @@ func (f *Fleet) Premise() string {
 	for _, n := range f.Nodes {
 		if !n.Running {
 			return "node " + n.Name + " not running"
+		}
+		if ret, _ := n.SyncReturned(n.Inc); ret {
+			return "node " + n.Name + " has stopped"
+		}
+		if ks := f.UncapturedKeys(n); len(ks) > 0 {
+			return "node " + n.Name + " has uncaptured application changes (" + ks[0] + ")"
 		}
 	}
 	// Everything published: every version an instance stores is contained
